@@ -537,3 +537,39 @@ def c20(chk):
     chk.assumptions += ["futures::FuturesUnordered is driven by a hand-written poll loop (no runtime): completion order is fully "
                         "controlled by the harness; thread-level races between executor threads are not explored",
                         "the resolver's iota handler (network client) is out of reach offline"]
+
+
+# ------------------------------------------------------------------------------------------------
+# C11 — JOSE header policy
+# ------------------------------------------------------------------------------------------------
+
+def flip_accept_case(rows, k=3):
+    out = []
+    for r in rows:
+        if r["out"].get("accept") is True and r["row"]["p"]["present"]:
+            r = json.loads(json.dumps(r))
+            r["out"]["accept"] = False
+            r["out"]["verify"] = False
+            out.append(r)
+            if len(out) >= k:
+                break
+    if not out:
+        raise ToolError("canary: no acceptable row")
+    return out
+
+
+@plan("C11")
+def c11(chk):
+    chk.rule = ("TLC enumerates the complete decision table over (protected, unprotected) header pairs: presence, alg placement, "
+                "b64 in {absent,true,false} on either side, crit in {absent, [], [b64], [b64,b64], [alg], [exp], [x-unknown]}, "
+                "shared registered (kid) and custom names, an unregistered 'exp' parameter — 24 601 rows — and evaluates the ten "
+                "rules written from RFC 7515/7797. Every row is executed at every entry point: compact/flattened/general "
+                "encoders (incl. detached and add_recipient against first recipients with b64 true/false), compact/flattened/"
+                "general decoders on raw crafted tokens (row as only and as second signature) and JwsValidationItem::verify; "
+                "acceptance is compared in BOTH directions.")
+    r = chk.mc("JoseHeaderPolicy", "JoseHeaderPolicy_%s.cfg" % chk.tier, workers=4, timeout=600, heap="3g")
+    rep = chk.replay(r["cases_file"], timeout=3000)
+    chk.canary_cases(r["cases_file"], flip_accept_case)
+    chk.assumptions += ["decision table: no trace direction; the table is complete inside the listed parameter shapes",
+                        "a general-serialization token whose signatures disagree on b64 is decoded entry by entry (decoder-side "
+                        "R9 is not stated by the property and not claimed)"]
